@@ -23,13 +23,17 @@ theorem solveCnf_spec (fuel : Nat) (cnf : CNF) (o : Oracle) :
   dsimp only
   have ht := unitPropagate_spec ((varsOf (cnf.map dedup)).length + 2) (cnf.map dedup) [] 0
     (TrailOK.nil _ _)
-  generalize unitPropagate ((varsOf (cnf.map dedup)).length + 2) (cnf.map dedup) [] 0 = up at ht
+  have hvars : ∀ c ∈ cnf.map dedup, ∀ l ∈ c, l.1 ∈ varsOf (cnf.map dedup) :=
+    fun c hc l hl => mem_varsOf hc hl
+  have hfu := unitPropagate_fuel_suffices hvars ((varsOf (cnf.map dedup)).length + 2) [] 0
+    (by have := freeVars_le (varsOf (cnf.map dedup)) []; omega)
+  generalize unitPropagate ((varsOf (cnf.map dedup)).length + 2) (cnf.map dedup) [] 0 = up at ht hfu
   obtain ⟨pr, tr⟩ := up
   dsimp only
   have hinv : Inv (cnf.map dedup) ⟨cnf.map dedup, tr, 0, [], o.res⟩ :=
-    ⟨⟨[], by simp⟩, fun c hc σ hσ => hσ c hc, ht.1, TraceOK.nil _, _, rfl, Shadow.refl _⟩
-  obtain ⟨h1, h2, hnc⟩ := mainLoop_spec (cnf.map dedup) _ (varsOf (cnf.map dedup)).length fuel fuel
-    _ pr hinv ht.2
+    ⟨⟨[], by simp⟩, fun c hc σ hσ => hσ c hc, ht.1, TraceOK.nil _, ⟨_, rfl, Shadow.refl _⟩, hvars⟩
+  obtain ⟨h1, h2, hnc⟩ := mainLoop_spec (cnf.map dedup) _ (varsOf (cnf.map dedup)).length fuel
+    (Nat.le_refl _) fuel _ pr hinv ht.2 hfu
   refine ⟨?_, ?_, hnc⟩
   · intro a ha
     have := h1 a ha
